@@ -138,6 +138,8 @@ func (e *Exec) rep64(s int) SlotRep {
 	if err := rb.Validate(); err != nil {
 		r.Val = err.Error()
 	}
+	r.Gc = numFromU64(rb.GetCardinality())
+	r.Emp = rb.IsEmpty()
 	return r
 }
 
